@@ -276,7 +276,7 @@ class Engine:
                     return self.statistics
 
                 L += 1
-                Nl = np.append(Nl, 1)
+                Nl = np.append(Nl, 0)
                 vl = np.append(vl, vl[-1] / (2**beta))
                 cl = np.append(cl, cl[-1] * (2**gamma))
 
@@ -285,6 +285,7 @@ class Engine:
                     rmse, vl, cl
                 )
                 dNl = np.maximum(0, Ns - Nl)
+                dNl[-1] = max(dNl[-1], 1)  # the new level is always simulated: no level without sample
                 sum_cost = np.append(sum_cost, 0.0)
 
                 next_process = copy.deepcopy(ml_processes[-1])
